@@ -687,6 +687,7 @@ Lemma section_roundtrip ign c vs props_e o o' props_e' sec :
   desc_fill_ok sec ->
   exists e, o' = o ++ e /\ props_e' = add_props (s_params c) vs props_e /\
     length e = sec_nbits sec /\
+    (forall pr, add_props (sec_params sec) (map snd (sec_values sec)) pr = add_props (s_params c) vs pr) /\
     forall props_d t, data_ok_sec props_d sec ->
       exists sec_d, decode_section decode_data c props_d (e ++ t) =
                       Ok (sec_d, add_props (s_params c) vs props_d, t) /\
@@ -719,6 +720,7 @@ Proof.
   pose proof (fits_fixed_length _ _ Hff) as Hlfx.
   exists (body' ++ zeros fill). split; [reflexivity|]. split; [exact Hprops|].
   split; [rewrite app_length, length_zeros; lia|].
+  split; [intros pr0; rewrite Hpar, Hvs'; apply Hap|].
   intros props_d t Hdata.
   (* descriptors: fewer than 16 fill bits *)
   assert (Hdesc : match tail with Some (t0, _) => p_type t0 = TDescs -> (fill < 16)%nat | None => True end).
@@ -755,6 +757,100 @@ Proof.
     + destruct tail as [[t0 tv]|]; [|constructor]. cbn [map combine]. constructor; [|constructor].
       cbn [fst snd]. split; [reflexivity|]. destruct tv; try (left; reflexivity).
       right. exists b, fill. split; reflexivity.
+Qed.
+
+
+(* ------------------------------------------------------------------------ *)
+(* the section loops, coupled                                                *)
+(* ------------------------------------------------------------------------ *)
+(* the encoder's and the decoder's message attributes agree except for the total
+   length (declared vs. back-patched) *)
+Definition props_rel (e d : list (pname * pvalue)) : Prop :=
+  forall n, n <> Nlength -> prop_get n e = prop_get n d.
+
+Lemma props_rel_add_props ps : forall vs e d, props_rel e d -> props_rel (add_props ps vs e) (add_props ps vs d).
+Proof.
+  induction ps as [|p ps IH]; intros vs e d H; destruct vs as [|v vs]; try exact H.
+  cbn [add_props]. apply IH. unfold add_prop. destruct (p_prop p); [|exact H].
+  intros n Hn. cbn [prop_get]. destruct (pname_beq (p_name p) n); [reflexivity|apply H, Hn].
+Qed.
+
+Lemma configure_rel e d i : props_rel e d ->
+  configure_section definitions e i false false = configure_section definitions d i false false.
+Proof.
+  intros H. unfold configure_section, get_configuration, section_edition, section_present.
+  rewrite (H Nedition) by discriminate. rewrite (H Nis_section2_presents) by discriminate. reflexivity.
+Qed.
+
+Fixpoint props_after (new : list section) (props : list (pname * pvalue)) :=
+  match new with
+  | [] => props
+  | s :: r => props_after r (add_props (sec_params s) (map snd (sec_values s)) props)
+  end.
+
+Fixpoint data_ok (props_d : list (pname * pvalue)) (new : list section) : Prop :=
+  match new with
+  | [] => True
+  | s :: r => data_ok_sec props_d s /\ data_ok (add_props (sec_params s) (map snd (sec_values s)) props_d) r
+  end.
+
+Definition sec_fits (s : section) : Prop := fits_layout [] (sec_params s) (map snd (sec_values s)) = true.
+
+Lemma definitions_rt c : In c definitions -> config_rt_ok c = true.
+Proof. intros H. pose proof definitions_rt_ok as A. rewrite forallb_forall in A. apply A, H. Qed.
+
+Lemma loop_roundtrip ign idxs : forall json props_e secs_e o o' props_e' secs_e',
+  encode_sections ign definitions idxs json props_e secs_e o = Ok (o', props_e', secs_e') ->
+  exists e new, o' = o ++ e /\ secs_e' = secs_e ++ new /\ length e = sections_nbits new /\
+    (Forall sec_fits new -> Forall desc_fill_ok new ->
+     forall props_d secs_d t, props_rel props_e props_d -> data_ok props_d new ->
+       exists new_d,
+         decode_sections decode_data definitions false false idxs props_d secs_d (e ++ t) =
+           Ok (secs_d ++ new_d, props_after new props_d, t) /\
+         Forall2 sec_matches new new_d).
+Proof.
+  induction idxs as [|i idxs IH]; intros json props_e secs_e o o' props_e' secs_e'; cbn [encode_sections].
+  - destruct json; discriminate.
+  - destruct json as [|vs json]; [discriminate|]. intros H.
+    apply bind_ok in H as (oc & Hc & H). destruct oc as [c|].
+    + destruct (configure_section_plain _ _ _ _ Hc) as [Hin Hidx].
+      destruct (Nat.eqb_spec (length (s_params c)) (length vs)) as [Hlen|]; [|discriminate]. cbn [negb] in H.
+      apply bind_ok in H as ([[o1 props1] sec] & Hs & H).
+      pose proof (definitions_rt c Hin) as Hrt.
+      destruct (s_end c) eqn:Hend.
+      * injection H as <- <- <-.
+        pose proof (encode_section_whole _ _ _ _ _ _ _ _ ltac:(unfold config_rt_ok in Hrt; apply andb_true_iff in Hrt as [A _]; exact A) Hs)
+          as (e1 & Eo1 & Hn1 & _).
+        exists e1, [sec]. split; [exact Eo1|]. split; [reflexivity|]. split; [cbn [sections_nbits]; lia|].
+        intros Hfits Hdfs props_d secs_d t Hrel Hdat.
+        inversion Hfits as [|? ? Hfit _]; subst. inversion Hdfs as [|? ? Hdf _]; subst. destruct Hdat as [Hd _].
+        destruct (section_roundtrip ign c vs props_e o _ _ sec Hrt Hlen Hs Hfit Hdf) as (e & Eo & Hp & Le & Hap & Hdec).
+        apply app_inv_head in Eo. subst e.
+        destruct (Hdec props_d t Hd) as (sec_d & Hds & Hm).
+        exists [sec_d]. cbn [decode_sections props_after]. rewrite <- (configure_rel _ _ _ Hrel), Hc. cbn [bind].
+        rewrite Hds. cbn [bind]. rewrite Hend. rewrite Hap. split; [reflexivity|]. constructor; [exact Hm|constructor].
+      * apply IH in H as (e2 & new & -> & -> & Hl2 & Hrest).
+        pose proof (encode_section_whole _ _ _ _ _ _ _ _ ltac:(unfold config_rt_ok in Hrt; apply andb_true_iff in Hrt as [A _]; exact A) Hs)
+          as (e1 & Eo1 & Hn1 & _). subst o1.
+        exists (e1 ++ e2), (sec :: new). rewrite <- !app_assoc. split; [reflexivity|]. split; [reflexivity|].
+        split; [cbn [sections_nbits]; rewrite app_length; lia|].
+        intros Hfits Hdfs props_d secs_d t Hrel Hdat.
+        inversion Hfits as [|? ? Hfit Hfits']; subst. inversion Hdfs as [|? ? Hdf Hdfs']; subst. destruct Hdat as [Hd Hdat'].
+        destruct (section_roundtrip ign c vs props_e o _ _ sec Hrt Hlen Hs Hfit Hdf) as (e & Eo & Hp & Le & Hap & Hdec).
+        apply app_inv_head in Eo. subst e.
+        destruct (Hdec props_d (e2 ++ t) Hd) as (sec_d & Hds & Hm).
+        rewrite Hap in Hdat'.
+        destruct (Hrest Hfits' Hdfs' (add_props (s_params c) vs props_d) (secs_d ++ [sec_d]) t
+                    ltac:(rewrite Hp; apply props_rel_add_props; exact Hrel) Hdat') as (new_d & Hdr & Hms).
+        exists (sec_d :: new_d). cbn [decode_sections props_after]. rewrite <- (app_assoc e1 e2 t).
+        rewrite <- (configure_rel _ _ _ Hrel), Hc. cbn [bind].
+        rewrite Hds. cbn [bind]. rewrite Hend. rewrite Hap, Hdr, <- app_assoc. split; [reflexivity|].
+        constructor; assumption.
+    + apply IH in H as (e2 & new & -> & -> & Hl2 & Hrest). exists e2, new. split; [reflexivity|]. split; [reflexivity|].
+      split; [exact Hl2|].
+      intros Hfits Hdfs props_d secs_d t Hrel Hdat.
+      destruct (Hrest Hfits Hdfs props_d secs_d t Hrel Hdat) as (new_d & Hdr & Hms).
+      exists new_d. cbn [decode_sections]. rewrite <- (configure_rel _ _ _ Hrel), Hc. cbn [bind]. split; assumption.
 Qed.
 
 End Roundtrip.
